@@ -114,7 +114,7 @@ class HklCalculation:
         betain = radians(angle_between_vectors(kin, surf_nphi)) - pi / 2.0
         betaout = pi / 2.0 - radians(angle_between_vectors(kout, surf_nphi))
 
-        n_lab = Z @ self.ubcalc.n_phi
+        n_lab = normalised(Z @ self.ubcalc.n_phi)
         alpha = asin(bound(-n_lab[1, 0]))
         if is_small(cos(alpha)):
             naz = float("nan")
